@@ -143,8 +143,10 @@ CHECKS = {
                  "allocated roll is complete except copies made by Roll.adopt inside SubstitutionRoller - the full "
                  "statement is REFUTED there (C12_full_statement_refuted), confirmed on the implementation and recorded "
                  "as known finding K2. Correspondence: on every answer path the real object graph is checked against the "
-                 "property directly and its projection compared with the model's record."),
-        "note": "PARTIAL: object identity is modelled by heap ids, the comparison uses a tree projection of the graph; set iteration order of excluded indexes taken as ascending; axioms: none.",
+                 "property directly and its projection compared with the model's record; dyce.r.walk is compared with "
+                 "an independent traversal of the same graph (visited sets and parents) from the roll, an outcome and "
+                 "the roller."),
+        "note": "PARTIAL: object identity is modelled by heap ids, the comparison uses a tree projection of the graph; set iteration order of excluded indexes taken as ascending; dyce.r.walk is not modelled in Coq (checked against a Python traversal only); axioms: none.",
         "design": "5/C12",
     },
     "C13": {
@@ -206,7 +208,7 @@ CHECKS = {
         "text": ("Theorems (all inputs, any outcome type with a decidable total order): a successful draw changes "
                  "exactly the requested counts, keeps every outcome, leaves no negative count and moves the total by the "
                  "net amount; it is rejected iff some outcome is over-drawn; any sequence of draws conserves the "
-                 "bookkeeping; accumulate/zero_fill/remove specs. Correspondence ties the model of H.draw's Counter "
+                 "bookkeeping; a deck drawn against itself is exhausted with every outcome kept at zero, putting the negated request back restores every count, two draws commute and equal the draw of the combined request; accumulate/zero_fill/remove specs, zero_fill result == original. Correspondence ties the model of H.draw's Counter "
                  "steps to the code on generated requests and draw sequences."),
         "note": "Counter arithmetic and H.__init__ accumulation are modelled (finite-map semantics); axioms: none.",
         "design": "5/C18",
